@@ -354,8 +354,9 @@ impl BigDecimal {
                 let (sign, mut digits) = self.int_val.to_radix_le(10);
 
                 let digit_count = digits.len();
-                let int_digit_count = digit_count as i64 - self.scale;
-                let rounded_int = match int_digit_count.cmp(&-new_scale) {
+                // (i128: scales near the ends of the i64 range must not wrap)
+                let int_digit_count = digit_count as i128 - self.scale as i128;
+                let rounded_int = match int_digit_count.cmp(&-(new_scale as i128)) {
                     Equal => {
                         let (&last_digit, remaining) = digits.split_last().unwrap();
                         let trailing_zeros = remaining.iter().all(Zero::is_zero);
